@@ -6,6 +6,7 @@ f(x; p) = 1/2 x'Ax - (b + B0 p0 + B1 p1 + B2 p2 + t b4).x + 1/4 sum q_i x_i^4
           + sum_k a_k cos(w_k.x + phi_k) + sum_k s_k softplus(r_k.x + tau_k)
           + g1 sin(u0.p0 + u1.p1 + u2.p2 + u4 t) (h1.x)
           + 1/2 g2 (1 + tanh(v0.p0 + v2.p2)) (h2.x)^2
+          + 1/6 sum_k c3_k (T_k.x)^3 + c4 (x.x)^2 + c6 (x.x)^3          (polynomial "snap-through" family P)
    times a NaN barrier:  nan where bar_a.x > bar_c  (bar_c = +inf: no barrier)
 
 p = Params(bc_data=p0, state_data=p1, design_data=p2, app_data=coefs, time=t).
@@ -16,7 +17,9 @@ import numpy as np
 M = 3        # dimension of every parameter slot
 K = 3        # number of cos / softplus terms
 
-COEF_KEYS = ('A', 'b', 'B0', 'B1', 'B2', 'b4', 'q', 'a', 'W', 'phi', 's', 'R', 'tau',
+K3 = 3       # number of cubic directions
+
+COEF_KEYS = ('c3', 'T', 'c4', 'c6', 'A', 'b', 'B0', 'B1', 'B2', 'b4', 'q', 'a', 'W', 'phi', 's', 'R', 'tau',
              'g1', 'u0', 'u1', 'u2', 'u4', 'h1', 'g2', 'v0', 'v2', 'h2', 'bar_a', 'bar_c')
 
 
@@ -35,6 +38,8 @@ def jax_objective():
         val = val + c['g1'] * jnp.sin(theta) * (c['h1'] @ x)
         psi = c['v0'] @ p0 + c['v2'] @ p2
         val = val + 0.5 * c['g2'] * (1.0 + jnp.tanh(psi)) * (c['h2'] @ x)**2
+        r2 = x @ x
+        val = val + jnp.sum(c['c3'] * (c['T'] @ x)**3) / 6.0 + c['c4'] * r2**2 + c['c6'] * r2**3
         bar = jnp.where(c['bar_a'] @ x > c['bar_c'], jnp.nan, 1.0)
         return val * bar
     return f
@@ -53,7 +58,7 @@ def make_coefs(cfg):
         sig = np.exp(np.linspace(0.0, np.log(cond), n))
         sig = sig[rng.permutation(n)]
     sig = sig * float(cfg.get('sigscale', 1.0))
-    if fam in ('Qi', 'S', 'L'):
+    if fam in ('Qi', 'S', 'L', 'P'):
         # indefinite / singular spectrum
         k0 = int(cfg.get('nneg', 1))
         kz = int(cfg.get('nzero', 0))
@@ -92,6 +97,29 @@ def make_coefs(cfg):
     c['g2'] = float(abs(rng.normal())) * float(np.min(np.abs(sig)) + 0.1) if nlp else 0.0
     c['v0'], c['v2'] = rng.normal(size=M), rng.normal(size=M)
     c['h2'] = rng.normal(size=n)
+    if fam == 'P':
+        hs = float(np.max(np.abs(sig)))
+        c['c3'] = rng.normal(size=K3) * hs * float(cfg.get('c3scale', 5.0))
+        T = rng.normal(size=(K3, n))
+        c['T'] = T / np.linalg.norm(T, axis=1)[:, None]
+        c['c4'] = float(abs(rng.normal()) * 0.02 * hs + 0.02 * hs)
+        c['c6'] = float(abs(rng.normal()) * 0.02 * hs + 0.01 * hs)
+    else:
+        c['c3'], c['T'], c['c4'], c['c6'] = zero(K3), zero(K3, n), 0.0, 0.0
+    ex = cfg.get('explicit')
+    if ex:
+        # explicitly constructed instance: f = g.x + 1/2 x'Hx + 1/6 sum c3_k (T_k.x)^3 (+ nothing else)
+        c['A'] = np.asarray(ex['H'], dtype=float)
+        c['b'] = -np.asarray(ex['g'], dtype=float)
+        for k_ in ('B0', 'B1', 'B2'):
+            c[k_] = zero(n, M)
+        c['b4'] = zero(n)
+        c['q'], c['a'], c['s'] = zero(n), zero(K), zero(K)
+        c['g1'], c['g2'] = 0.0, 0.0
+        c['c3'] = np.asarray(ex['c3'], dtype=float)
+        c['T'] = np.asarray(ex['T'], dtype=float)
+        c['c4'], c['c6'] = 0.0, 0.0
+        c['_sig'] = np.linalg.eigvalsh(c['A'])
     bar = cfg.get('barrier')
     if bar:
         a = np.asarray(bar['a'], dtype=float)
@@ -149,6 +177,8 @@ class Evaluator:
         v += np.sum(c['s'] * _softplus(c['R'] @ x + c['tau']))
         v += c['g1'] * np.sin(self.theta(p)) * (c['h1'] @ x)
         v += 0.5 * c['g2'] * (1 + np.tanh(self.psi(p))) * (c['h2'] @ x)**2
+        r2 = x @ x
+        v += np.sum(c['c3'] * (c['T'] @ x)**3) / 6.0 + c['c4'] * r2**2 + c['c6'] * r2**3
         return float(v)
 
     def value_mag(self, x, p):
@@ -164,6 +194,8 @@ class Evaluator:
         m += np.sum(np.abs(c['s']) * (1 + np.abs(c['R']) @ x + np.abs(c['tau']))) * (n + 2)
         m += abs(c['g1']) * (np.abs(c['h1']) @ x) * (n + 2)
         m += abs(c['g2']) * (np.abs(c['h2']) @ x)**2 * (n + 2)
+        r2 = x @ x
+        m += (np.sum(np.abs(c['c3']) * (np.abs(c['T']) @ x)**3) / 6.0 + abs(c['c4']) * r2**2 + abs(c['c6']) * r2**3) * (n + 4)
         return float(m) + 1e-300
 
     def grad(self, x, p):
@@ -174,6 +206,8 @@ class Evaluator:
         g = g + (c['s'] * _sigmoid(c['R'] @ x + c['tau'])) @ c['R']
         g = g + c['g1'] * np.sin(self.theta(p)) * c['h1']
         g = g + c['g2'] * (1 + np.tanh(self.psi(p))) * (c['h2'] @ x) * c['h2']
+        r2 = x @ x
+        g = g + 0.5 * (c['c3'] * (c['T'] @ x)**2) @ c['T'] + 4 * c['c4'] * r2 * x + 6 * c['c6'] * r2**2 * x
         return g
 
     def grad_mag(self, x, p):
@@ -188,6 +222,9 @@ class Evaluator:
         m = m + (np.abs(c['s']) * (1 + np.abs(c['R']) @ ax) * (n + 2)) @ np.abs(c['R'])
         m = m + abs(c['g1']) * np.abs(c['h1']) * (M + 4)
         m = m + 2 * abs(c['g2']) * (np.abs(c['h2']) @ ax) * np.abs(c['h2']) * (n + M + 4)
+        r2 = ax @ ax
+        m = m + (0.5 * (np.abs(c['c3']) * (np.abs(c['T']) @ ax)**2) @ np.abs(c['T']) + 4 * abs(c['c4']) * r2 * ax
+                 + 6 * abs(c['c6']) * r2**2 * ax) * (n + 4)
         return m
 
     def hess(self, x, p):
@@ -198,6 +235,10 @@ class Evaluator:
         sg = _sigmoid(c['R'] @ x + c['tau'])
         H = H + (c['R'].T * (c['s'] * sg * (1 - sg))) @ c['R']
         H = H + c['g2'] * (1 + np.tanh(self.psi(p))) * np.outer(c['h2'], c['h2'])
+        r2 = x @ x
+        H = H + (c['T'].T * (c['c3'] * (c['T'] @ x))) @ c['T']
+        H = H + 4 * c['c4'] * (r2 * np.eye(self.n) + 2 * np.outer(x, x))
+        H = H + 6 * c['c6'] * (r2**2 * np.eye(self.n) + 4 * r2 * np.outer(x, x))
         return 0.5 * (H + H.T)
 
     def dgrad_dp(self, x, p, slot):
